@@ -116,7 +116,7 @@ func (p *Parser) Parse() (al align.Alignment, err error) {
 		}
 
 		if tok == MARKUP {
-			for tok != ENDOFLINE {
+			for tok != ENDOFLINE && tok != EOF && tok != ILLEGAL {
 				tok, _ = p.scanIgnoreWhitespace()
 			}
 			continue
@@ -141,7 +141,7 @@ func (p *Parser) Parse() (al align.Alignment, err error) {
 		}
 	}
 
-	if al.Length() == 0 {
+	if al.NbSequences() == 0 {
 		err = fmt.Errorf("no sequence in this Stockholm file")
 		return
 	}
